@@ -55,7 +55,12 @@ def generate_twins(seed: int, tier: str) -> dict:
     for call in range(len(order) * 3 + 1):
         if rng.random() < 0.3:
             events.append({"before_call": call, "chdir": rng.choice(["", "/"] + dirs)})
-    return {"prop": "C17", "engine": "fs", "seed": seed, "tier": tier, "twins": {"dirs": dirs, "mid": mid, "leaf": leaf, "vals": vals, "missing": missing, "order": order},
+    separate = None
+    if rng.random() < 0.35:
+        # several documents open side by side, each parsed from a relative path while the process stood somewhere
+        # else: {dir: cwd at parse time}
+        separate = {d: rng.choice(["", d] + dirs) for d in dirs}
+    return {"prop": "C17", "engine": "fs", "seed": seed, "tier": tier, "twins": {"dirs": dirs, "mid": mid, "leaf": leaf, "vals": vals, "missing": missing, "order": order, "separate": separate},
             "events": events, "start_cwd": rng.choice(["", "/"]), "entry_form": rng.choice(["rel", "abs", "rel_dot"])}
 
 
@@ -91,12 +96,20 @@ def execute_twins(case: dict):
         c2 = dict(case, chain=["entry.nix"])
         spelled = entry_spelling(c2, root, cwd_now)
         src = parse_file(spelled)
+        separate = tw.get("separate")
+        docs = {}
+        if separate:
+            stats["separate_documents"] = len(separate)
+            for d in tw["dirs"]:
+                os.chdir(os.path.join(root, separate[d]))
+                docs[d] = parse_file(os.path.relpath(os.path.join(root, d, tw["mid"]), os.getcwd()))
+            os.chdir(cwd_now)
         call = 1
         for d in tw["order"]:
             key = "k%d" % tw["dirs"].index(d)
             try:
                 run_events(call)
-                cur = src[key]
+                cur = docs[d] if separate else src[key]
                 run_events(call + 1)
                 cur = cur["nxt"]
                 run_events(call + 2)
